@@ -16,7 +16,7 @@ from harness.broker_driver import Scenario
 BACKENDS = ["inmem", "redis", "rabbit"]
 REDIS_SHARED = {"n+n", "topics", "n+d", "same-due"}
 ALLCHK = ["fifo", "early", "latency", "ttl", "holder", "content"]
-CLAUSES = {"C01": ["holder"], "C05": ["early", "latency"], "C12": ["ttl"], "C14": ["holder"], "C15": ["fifo", "starve"], "C07": ["content"]}
+CLAUSES = {"C01": ["holder", "route"], "C05": ["early", "latency"], "C12": ["ttl"], "C14": ["holder"], "C15": ["fifo", "starve"], "C07": ["content"]}
 # in-memory consumer: due messages are moved every UPDATE_DELAYED_EVERY of idle polling (+ poll period)
 def inmem_latency_us():
     from repid.connections.in_memory.consumer import _InMemoryConsumer
